@@ -41,7 +41,7 @@ var Check = &ev.Check{
 	Rule: "base messages (<=64 bytes): struct-wrapped C02 depth-1/2 container values, valid plugin/api messages (HandshakeResponse, GenerateServiceRequest/Response, Service), the reference encodings (<=96 bytes) of the baseline and single-field deviations of every cell-universe type for the generated decoders, each bare, in a strict and a legacy envelope, and framed; " +
 		"fault = the 4 bytes at every offset (a superset of every position where the format carries a length/count) set to each of {2^16, 2^20+1, 2^24, 2^27, 2^28, 2^28+1, 2^29, 2^29+1, 2^30, 2^30+1, 2^31-1} (values above 2^24 only for (API, position kind) classes that stayed within bounds at 2^24, so that violating classes are found without killing the worker; 2^28..2^30 are where count*width wraps 32 bits); " +
 		"x 15 decoding APIs (Decode+force, Decode+wire.*ToSlice, Decode+EvaluateValue, ReadValue, primitive stream walk, Skip seek/stream, DecodeEnveloped, ReadEnvelopeBegin, DecodeRequest, ReadRequest, frame.Reader.Read, generated FromWire(Decode) and generated Decode for 4 plugin/api types). " +
-		"Oracle per call: TotalAlloc delta <= 12 MiB + 64*N and reader calls <= 16 + 4*N. A case is (message, offset, magnitude); non-trivial = the mutated window overlaps a real length/count field of the reference encoding.",
+		"Wire-level messages additionally get 10 small negative values (-1..-16) in every window. Oracle per call: TotalAlloc delta <= 12 MiB + 64*N and reader calls <= 16 + 4*N. A case is (message, offset, magnitude); non-trivial = the mutated window overlaps a real length/count field of the reference encoding.",
 	Prepare: func(s *ev.S) error {
 		_, err := cells.Prepare(s, cells.Options{Slim: true})
 		return err
@@ -318,6 +318,11 @@ func bases(thorough bool) []base {
 	return out
 }
 
+// negMagnitudes: small negative lengths / counts (wire-level messages only): on a
+// seekable source "skip n bytes" with a small negative n is a short backward seek,
+// which can re-read the same header for ever.
+var negMagnitudes = []uint32{0xffffffff, 0xfffffffe, 0xfffffffd, 0xfffffffc, 0xfffffffb, 0xfffffffa, 0xfffffff9, 0xfffffff8, 0xfffffff4, 0xfffffff0}
+
 // magnitudes: large counts, plus the counts at which count*width wraps around
 // 32 bits for element widths 2..16 (2^28..2^30 and their successors).
 var magnitudes = []uint32{1 << 16, 1<<20 + 1, 1 << 24, 1 << 27, 1 << 28, 1<<28 + 1, 1 << 29, 1<<29 + 1, 1 << 30, 1<<30 + 1, 1<<31 - 1}
@@ -425,13 +430,20 @@ func run(w *ev.W) {
 		}
 		for off := 0; off+4 <= len(b.msg); off++ {
 			kind, real := posKind(b.marks, off)
-			for _, mag := range magnitudes {
+			mags := magnitudes
+			if !strings.HasPrefix(b.name, "cell:") {
+				mags = append(append([]uint32{}, magnitudes...), negMagnitudes...)
+			}
+			for _, mag := range mags {
 				if !w.Own() {
 					continue
 				}
 				if w.Expired() {
 					w.Cap("time budget reached before all (message, offset, magnitude) cases were run")
 					return
+				}
+				if mag >= 0xfffffff0 {
+					w.Count("small_negative_length_cases", 1)
 				}
 				msg := append([]byte{}, b.msg...)
 				msg[off], msg[off+1], msg[off+2], msg[off+3] = byte(mag>>24), byte(mag>>16), byte(mag>>8), byte(mag)
